@@ -67,7 +67,11 @@ class Chan:
             pause = None
             if self.spec["slow"]:
                 pause = lambda: time.sleep(rng.random() * 0.001)
-            cm.send_all(self.w, data, rng, stderr=stderr, pause=pause)
+            if self.spec.get("api") == "sendall":
+                # one call for the whole buffer: send() accepts only what window and packet size allow each round
+                (self.w.sendall_stderr if stderr else self.w.sendall)(data)
+            else:
+                cm.send_all(self.w, data, rng, stderr=stderr, pause=pause)
         except Exception as e:
             self.errors.append("writer(%s): %r" % ("err" if stderr else "out", e))
 
@@ -149,7 +153,7 @@ def gen_case(rng, quick, idx):
         while n_out + n_err > budget // k:
             n_out //= 2
             n_err //= 2
-        chans.append(dict(direction=rng.choice(("c2s", "s2c")), opened_by=rng.choice("ccs"), n_out=n_out, n_err=n_err,
+        chans.append(dict(direction=rng.choice(("c2s", "s2c")), opened_by=rng.choice("ccs"), api=rng.choice(("send", "sendall")), n_out=n_out, n_err=n_err,
                           maxread=rng.choice((1, 10, 1000, 40000, 1 << 20)) if n_out + n_err < 30000
                           else rng.choice((1000, 40000, 1 << 20)),
                           ptoggle=rng.choice((0, 0.02, 0.2)), end_combined=rng.random() < 0.4,
@@ -157,6 +161,9 @@ def gen_case(rng, quick, idx):
                           window=rng.choice((None, 32768, 65535)), seeds=[rng.getrandbits(32) for _ in range(3)]))
     if idx == 0 and chans:  # every shard moves one full-size stream pair
         chans[0].update(n_out=524288 if not quick else 131072, n_err=524288 if not quick else 131072)
+    if idx == 2 and chans:  # every shard: sendall of a big buffer through a window that never has a full packet of room
+        chans[0].update(n_out=150000, n_err=60000, api="sendall", window=32768, opened_by="c", direction="s2c", maxread=rng.choice((700, 3300, 5000)),
+                        ptoggle=0, end_combined=False, slow=False)
     if idx == 1:  # every shard: toggles while stderr keeps arriving, application thread perturbed inside the switch
         chans[0].update(n_out=1000, n_err=120000, ptoggle=0.2, perturb=0.003, slow=True, maxread=1000,
                         end_combined=False, window=None)
@@ -398,6 +405,14 @@ def run_case(ctx, case, rng, seedbase):
                 ctx.violation("exit status reported differs from the one sent",
                               "recv_exit_status returned %r, peer sent %r" % (got[0], ch.spec["status"]),
                               dict(channel=ch.idx, sent=ch.spec["status"], got=got[0]))
+        for ch in chans:
+            if ch.spec.get("api") == "sendall" and not ch.errors:
+                ctx.count("sendall_streams_checked")
+                side = "c" if ch.w is ch.c else "s"
+                pk = ch.w.out_max_packet_size - 64
+                short = [m for m in p.msgs(side, "out", (cm.DATA, cm.EXT))
+                         if cm.parse(m["payload"])["rcpt"] == ch.w.remote_chanid and cm.parse(m["payload"])["len"] < pk]
+                ctx.count("window_limited_data_msgs", max(0, len(short) - 2))
         ctx.count("data_msgs_after_rekey", sum(1 for m in p.msgs("c", "out", (cm.DATA, cm.EXT)) + p.msgs("s", "out", (cm.DATA, cm.EXT))
                                                if m["epoch"] > 1))
         ctx.count("cases_run")
@@ -407,9 +422,71 @@ def run_case(ctx, case, rng, seedbase):
         p.close()
 
 
+def run_close_race(ctx, case, rng):
+    """The client close()s its channels while the server's exit-status + EOF + CLOSE are still in flight (the
+    server->client direction is held or slow).  The status the server sent must still be reported."""
+    p = pair.Pair(rng=rng)
+    cm.watch(p.tc, p.rec, "c")
+    cm.watch(p.ts, p.rec, "s")
+    try:
+        if not p.start() or not p.auth():
+            ctx.inconclusive("handshake failed (close race)")
+            return
+        cm.diverge_ids(p, rng)
+        chans = [p.session() for _ in range(case["k"])]
+        if case["mode"] == "hold":
+            p.link.ba.hold()
+        else:
+            p.link.set_latency(0.0, 0.03)
+        for (c, s), st in zip(chans, case["statuses"]):
+            s.send_exit_status(st)
+            if case["server_ends"]:
+                s.shutdown_write()
+                s.close()
+        for c, s in chans:
+            c.close()  # our own close goes out first; the status is still on its way
+            if c.exit_status_ready() and c.exit_status == -1:
+                ctx.count("exit_status_ready_reports_no_status_yet_after_own_close")
+        if case["mode"] == "hold":
+            p.link.ba.release()
+        p.link.set_latency(0)
+        if not p.wait_quiet(0.2, 20):
+            ctx.inconclusive("link not quiet after close race")
+            return
+        for (c, s), st in zip(chans, case["statuses"]):
+            reqs = [e for e in p.msgs("c", "in", (cm.REQUEST,)) if cm.parse(e["payload"])["rcpt"] == c.chanid]
+            closes = [e for e in p.msgs("c", "out", (cm.CLOSE,)) if cm.parse(e["payload"])["rcpt"] == c.remote_chanid]
+            if not reqs or not closes:
+                ctx.inconclusive("exit-status request or own CLOSE not on the tap")
+                continue
+            if reqs[0]["n"] > closes[0]["n"]:
+                ctx.count("statuses_arriving_after_own_close")
+            got = [None]
+            t = threading.Thread(target=lambda: got.__setitem__(0, c.recv_exit_status()), daemon=True)
+            t.start()
+            t.join(30)
+            if t.is_alive():
+                ctx.inconclusive("recv_exit_status blocked after close")
+                continue
+            ctx.count("exit_statuses_compared")
+            if got[0] != st or not c.exit_status_ready():
+                ctx.violation("exit status that arrived after our own close is not reported",
+                              "server sent exit-status %d, the client had already called close(); recv_exit_status "
+                              "returned %r after the link went quiet" % (st, got[0]), dict(case=case, sent=st, got=got[0]))
+        ctx.count("close_race_cases")
+    finally:
+        p.close()
+
+
 def run(ctx):
     cm.install()
     rng = ctx.rng
+    for i in range(ctx.pick(4, 30)):
+        k = 1 + i % 3
+        case = dict(kind="close-while-status-in-flight", k=k, mode=("hold", "latency")[i % 2], server_ends=i % 4 != 3,
+                    statuses=[rng.choice(STATUSES[:-1]) for _ in range(k)])
+        ctx.guard(run_close_race, ctx, case, rng)
+        ctx.case(("c21-close", repr(case)), sample=case if i == 0 else None)
     n = ctx.pick(6, 40)
     dl = ctx.deadline(30, 400)
     for i in range(n):
@@ -433,3 +510,7 @@ def run(ctx):
     ctx.require("channels_with_local_id_ne_remote_id", 60)
     ctx.require("channels_whose_remote_id_is_another_live_local_id", 15)
     ctx.require("server_opened_channels", 15)
+    ctx.require("sendall_streams_checked", 20)
+    ctx.require("window_limited_data_msgs", 40)
+    ctx.require("statuses_arriving_after_own_close", 20)
+    ctx.require("close_race_cases", 24)
